@@ -38,6 +38,8 @@ fn build_pool(ctx: &mut Ctx, n_rules: usize, n_data: usize) -> Vec<(Value, Value
     let mut g = RuleGen::new();
     g.probes = 8;
     g.poison = 4;
+    rules.truncate(n_rules.max(4));
+    datas.truncate(n_data.max(2));
     while rules.len() < n_rules {
         let d = datas[ctx.rng.below(datas.len())].clone();
         rules.push(g.rule(&mut ctx.rng, &d, 3, 3));
@@ -58,8 +60,8 @@ struct Isolated {
 }
 
 pub fn c17(ctx: &mut Ctx) {
-    let small = ctx.scale < 0.2; // Miri / sanitizer lanes
-    let (nr, nd) = if small { (10, 3) } else if ctx.thorough() { (400, 12) } else { (120, 8) };
+    let small = ctx.small; // Miri lane
+    let (nr, nd) = if small { (8, 2) } else if ctx.thorough() { (400, 12) } else { (120, 8) };
     let pool = build_pool(ctx, nr, nd);
     // ---- isolated results: first call of each pair in this process -----------------------
     // (a sample of them is additionally computed in a fresh process by the orchestrator)
@@ -75,7 +77,7 @@ pub fn c17(ctx: &mut Ctx) {
         iso.push(Isolated { key: outcome_key(&obs.out), logs: obs.logs, allocs });
     }
     // log returns its operand unchanged
-    for v in v_all() {
+    for v in v_all().into_iter().take(if small { 6 } else { 1000 }) {
         let data = json!({ "v": v });
         let obs = ctx.observe(&json!({"log": [{"var": "v"}]}), &data);
         ctx.mon("c17.log-identity").observed += 1;
@@ -87,7 +89,7 @@ pub fn c17(ctx: &mut Ctx) {
     }
 
     // ---- H1 + H2 + H3: randomised histories ----------------------------------------------
-    let n = ctx.budget(30_000, 4_000_000);
+    let n = if small { 40 } else { ctx.budget(30_000, 4_000_000) };
     let mut prev_rule: Option<usize> = None;
     let per_data = nd.max(1);
     for step in 0..n {
@@ -144,8 +146,8 @@ pub fn c17(ctx: &mut Ctx) {
     let shared: Arc<Vec<(Value, Value)>> = Arc::new(pool);
     let iso_keys: Arc<Vec<String>> = Arc::new(iso.iter().map(|x| x.key.clone()).collect());
     let iso_logs: Vec<Vec<String>> = iso.iter().map(|x| x.logs.clone()).collect();
-    let rounds = ctx.budget(6, 200).max(1);
-    let calls_per_thread = if small { 6 } else { ctx.budget(300, 3000) as usize };
+    let rounds = if small { 1 } else { ctx.budget(6, 200).max(1) };
+    let calls_per_thread = if small { 12 } else { ctx.budget(300, 3000) as usize };
     let mut signatures: BTreeMap<u64, u64> = BTreeMap::new();
     let mut total_switches = 0u64;
     for round in 0..rounds {
